@@ -349,6 +349,78 @@ def run_binary(job):
     return (rc, out.read_text() if out.exists() else None)
 
 
+
+# ---------------------------------------------------------------- multi-file (folder output): every reference resolves in its file
+A_LIB = ('#[typeshare]\npub struct A1 { pub x: u8 }\n#[typeshare]\n#[serde(rename = "A2Renamed")]\npub struct A2 { pub x: u8 }\n'
+         '#[typeshare]\npub struct A3 { pub y: String }\n#[typeshare]\npub struct Wrap<T> { pub inner: T }\n')
+MULTI_WS = [
+    # (a cross-crate reference to a serde-RENAMED type loses its import: the recorded open finding C14-renamed-import; not used here)
+    ('explicit imports from a crate that also has a renamed type', {'a/src/lib.rs': A_LIB, 'b/src/lib.rs': 'use a::{A1, A3, Wrap};\n#[typeshare]\npub struct B1 { pub f: A1, pub g: Vec<A3>, pub h: Wrap<A3> }\n'},
+     {'b': ['A1', 'A3', 'A3', 'Wrap']}),
+    ('glob import of a crate with a renamed type', {'a/src/lib.rs': A_LIB, 'b/src/lib.rs': 'use a::*;\n#[typeshare]\npub struct B1 { pub f: A1, pub g: Option<A3>, pub h: Wrap<A1> }\n'},
+     {'b': ['A1', 'A1', 'A3', 'Wrap']}),
+    # the importing crate has a type of its own under the Rust name of a glob-imported, serde-renamed type (seeded C09_d)
+    ('local type shadows a glob-imported renamed type', {'a/src/lib.rs': A_LIB, 'b/src/lib.rs': 'use a::*;\n#[typeshare]\npub struct A2 { pub z: u8 }\n'
+                                                                                                  '#[typeshare]\npub struct B1 { pub f: A2, pub g: Vec<A2>, pub h: A1 }\n#[typeshare]\npub type L1 = Option<A2>;\n'},
+     {'b': ['A1', 'A2', 'A2', 'A2']}),
+    ('local renamed type shadows a glob-imported type', {'a/src/lib.rs': A_LIB, 'b/src/lib.rs': 'use a::*;\n#[typeshare]\n#[serde(rename = "MineA1")]\npub struct A1 { pub z: u8 }\n'
+                                                                                                  '#[typeshare]\npub struct B1 { pub f: A1, pub g: A3 }\n'},
+     {'b': ['A3', 'MineA1']}),
+    ('shadowing type in another file of the crate', {'a/src/lib.rs': A_LIB, 'b/src/lib.rs': 'use a::*;\n#[typeshare]\npub struct B0 { pub h: A3 }\n',
+                                                     'b/src/own.rs': '#[typeshare]\npub struct A2 { pub z: u8 }\n#[typeshare]\npub struct B1 { pub f: A2, pub g: Wrap2<A2> }\n#[typeshare]\npub struct Wrap2<T> { pub v: T }\n'},
+     {'b': ['A2', 'A2', 'A3', 'Wrap2']}),
+    ('three crates, a renamed local type', {'a/src/lib.rs': A_LIB, 'c/src/lib.rs': '#[typeshare]\npub struct C1 { pub x: u8 }\n#[typeshare]\n#[serde(rename = "CeeTwo")]\npub struct C2 { pub x: u8 }\n',
+                                            'b/src/lib.rs': 'use a::A3;\nuse c::*;\n#[typeshare]\n#[serde(rename = "BeeOne")]\npub struct B1 { pub f: A3, pub g: C1 }\n#[typeshare]\npub struct B2 { pub b: B1, pub c: Vec<C1> }\n'},
+     {'b': ['A3', 'BeeOne', 'C1', 'C1']}),
+]
+TS_IMPORT = __import__('re').compile(r'^import \{([^}]*)\} from "\./([^"]+)";', __import__('re').M)
+
+
+def phase_multi(chk):
+    """TypeScript, --output-folder: in every generated file each referenced user type is defined in that file or imported into
+    it, and every imported name is defined in the file it is imported from (closed-world name resolution: C09's statement for a
+    run that writes several files).  Workspaces are hand-written and outside the recorded C14 classes (named or glob-covered
+    references, unique generated names)."""
+    import re
+    for name, files, expect in MULTI_WS:
+        d = vf.tmpdir('verif-c09-')
+        for rel, txt in files.items():
+            q = d / 'ws' / rel
+            q.parent.mkdir(parents=True, exist_ok=True)
+            q.write_text(txt)
+        (d / 'out').mkdir()
+        p = subprocess.run(['timeout', '30', str(vf.TYPESHARE), '--lang', 'typescript', '--output-folder', str(d / 'out'), str(d / 'ws')], capture_output=True, text=True)
+        chk.evaluations += 1
+        chk.count('multi_file_workspaces')
+        payload = {'phase': 'multi', 'workspace': name, 'files': files}
+        if p.returncode != 0:
+            chk.violation(f'multi-{name}', dict(payload, rc=p.returncode, stderr=p.stderr[-400:]), 'the real binary fails on a plain multi-crate workspace')
+            continue
+        outs = {f.stem: f.read_text() for f in sorted((d / 'out').glob('*.ts'))}
+        defs = {m: set(observe_text('typescript', t)[0]) for m, t in outs.items()}
+        bad = []
+        for m, t in outs.items():
+            imported = {}
+            for names, src in TS_IMPORT.findall(t):
+                for n in [x.strip() for x in names.split(',') if x.strip()]:
+                    imported[n] = src
+                    if n not in defs.get(src, set()):
+                        bad.append(f'{m}.ts imports {n} from ./{src}, which does not define it')
+            generics = set(re.findall(r'<([A-Z]\w*)>', ' '.join(re.findall(r'export (?:interface|type) \w+(<[^>]*>)', t))))
+            for owner, pos, n in observe_text('typescript', t)[1]:
+                if n not in defs[m] and n not in imported and n not in generics:
+                    bad.append(f'{m}.ts: {owner} ({pos}) refers to {n}, which is neither defined in the file nor imported')
+        payload['outputs'] = outs
+        for m, want in expect.items():
+            got = sorted(n for _, _, n in observe_text('typescript', outs.get(m, ''))[1] if len(n) > 1)      # generic parameters are single letters here
+            if got != want:
+                bad.append(f'{m}.ts spells its references {got}; the definitions they denote are emitted as {want}')
+        if bad:
+            chk.violation(f'multi-{name}', dict(payload, unresolved=bad), f'typescript, folder output, workspace "{name}": ' + '; '.join(bad[:3]))
+        else:
+            chk.nontrivial.add(('multi', name))
+
+
 def run(chk):
     chk.rule = ('programs of 2-8 mutually referencing items (struct, generic struct, unit enum, tagged enum with unit/tuple/struct variants, generic '
                 'tagged enum, alias, generic alias, JvmInline alias, const typed by an alias); references direct, through Vec/Option/HashMap/array/slice/Box, '
@@ -361,7 +433,7 @@ def run(chk):
     chk.assumptions = ['syn is not modelled: the model receives the AST produced by harness/libdrive/src/ast.rs from the same text',
                        'what a name in a type position of the target language MEANS is fixed by Spec/C09Spec.v (c09_observe, builtin tables) and '
                        'lib/extract.py; no target-language compiler is installed',
-                       'single-file mode (p_imports = []); cross-crate references are C14\'s subject',
+                       'single-file mode (p_imports = []) for the generated programs; folder output: six hand-written workspaces through the real binary (TypeScript), every reference resolved in its file; import completeness in general is C14\'s subject',
                        'C09_Go covers every alphanumeric uppercase_acronyms list on ASCII programs (all generated programs and lists are); '
                        'non-alphanumeric acronyms and non-ASCII names are outside the theorem and are not generated']
     chk.prepare(need_cli=True)
@@ -371,6 +443,8 @@ def run(chk):
     corr = []
     # 0. the witnesses of the two findings repaired in /repo must pass
     fixed_witnesses(chk, corr)
+    if chk.cli_ok:
+        phase_multi(chk)
     # 1. the witnesses of the recorded classes, against the real code
     wl = sorted(WITNESSES.items())
     res = run_cases([(l, c, s) for _, (l, c, s) in wl])
